@@ -95,6 +95,39 @@ class Rule:
         return cond
 
 
+def short_name(n):
+    parts = (n or "").split("::")
+    return "::".join(parts[-2:]) if len(parts) > 2 else (n or "")
+
+
+INVENTORY = os.path.join(os.path.dirname(os.path.abspath(__file__)), "inventory.json")
+
+
+def inventory_names(fb):
+    """named (non-lambda) functions defined in /repo's own sources"""
+    out = set()
+    for f in fb.functions:
+        if f.kind == "lambda" or "$lambda" in f.name:
+            continue
+        if "/include/iora/" in f.file or "/src/" in f.file:
+            out.add(f.name)
+    return out
+
+
+def functions_through_unknown_helpers(fb, cg):
+    """(unknown, tainted): functions of the current tree that are not in the frozen inventory, and every function from which
+    one of them is reachable.  The instance tables of the rules were confirmed by reading a known set of functions; code that
+    has been moved into a helper the rules have never seen is outside what they can judge."""
+    if os.environ.get("IORA_VERIF_NO_INVENTORY") or not os.path.exists(INVENTORY):
+        return set(), set()
+    inv = set(json.load(open(INVENTORY)).get("functions", []))
+    unknown = inventory_names(fb) - inv
+    tainted = set(unknown)
+    for u in unknown:
+        tainted |= cg.transitive_callers(u)
+    return unknown, tainted
+
+
 class Check:
     def __init__(self, pid, tier="quick", title=""):
         self.pid = pid
@@ -106,6 +139,22 @@ class Check:
         self.assumptions = []
         self.extra = {}
         self.broken = []
+
+    def set_inventory_guard(self, fb, cg):
+        self.unknown, self.tainted = functions_through_unknown_helpers(fb, cg)
+        self._fb, self._cg = fb, cg
+        if self.unknown:
+            self.extra["functions_not_in_inventory"] = sorted(self.unknown)[:40]
+
+    def reach_names(self, fname):
+        out = set()
+        for f in self._fb.by_name.get(fname, []):
+            roots = [f]
+            sigs = self._cg.reach(roots)
+            for g in self._fb.functions:
+                if g.sig in sigs:
+                    out.add(g.name)
+        return out
 
     def rule(self, rid, title, analysis=""):
         r = Rule(self, rid, title, analysis)
@@ -147,6 +196,15 @@ class Check:
                         match = (i, k)
                         break
                 rel = (fl["file"] or "").replace(REPO + "/", "")
+                base_fn = (fl["function"] or "").split("::$lambda")[0]
+                if not match and base_fn in getattr(self, "tainted", ()):
+                    via = sorted(u for u in self.unknown if u == base_fn or u in self.reach_names(base_fn))[:4]
+                    msg = ("%s: `%s` [%s] is reported in code that now runs through function(s) the rule tables have never seen (%s; not in iora_sa/inventory.json): "
+                           "the rule does not follow them, so this is not a verdict — read the new helper(s) against the rule and re-freeze the inventory (tools/mkinventory.py). "
+                           "What the rule saw: %s" % (fl["rule"], short_name(fl["function"]), fl["construct"], ", ".join(short_name(v) for v in via) or "?", fl["msg"][:160]))
+                    if msg not in self.broken:
+                        self.broken.append(msg)
+                    continue
                 if match:
                     used_known.add(match[0])
                     nknown += 1
